@@ -65,4 +65,21 @@ Section Origin.
     | Com => (if ax0 then com_axis (proj0 IM) else c0, if ax1 then com_axis (proj1 IM) else c1)
     | Convolution => (if ax0 then conv_axis (proj0 IM) else c0, if ax1 then conv_axis (proj1 IM) else c1)
     end.
+
+  (* the documented options of the methods: round_output (com: both
+     coordinates are passed through Python round(), center.py:388-389; the
+     other modelled methods swallow it in **kwargs) and projections
+     (convolution: the autoconvolved projections of the requested axes are
+     returned after the origin, None for the others, center.py:440-441) *)
+  Variable rnd : A -> A.
+
+  Definition find_origin_opt (meth : method) (IM : img) (ax0 ax1 : bool) (round_output : bool) : A * A :=
+    let o := find_origin meth IM ax0 ax1 in
+    match meth with
+    | Com => if round_output then (rnd (fst o), rnd (snd o)) else o
+    | _ => o
+    end.
+
+  Definition conv_projections (IM : img) (ax0 ax1 : bool) : option (list A) * option (list A) :=
+    (if ax0 then Some (autoconv (proj0 IM)) else None, if ax1 then Some (autoconv (proj1 IM)) else None).
 End Origin.
